@@ -445,3 +445,430 @@ Section SP2.
       stores. destruct (Nat.eqb_spec sl' sl) as [->|N]; [elim (NoPtr b ob Hb E)|reflexivity].
   Qed.
 End SP2.
+
+(* ---------- handles: liveness and the searchParams pointer under the two footprints ---------- *)
+Lemma inplace_live h h' a o o' b : inplace h h' a o o' -> rd (hu h) b <> None -> rd (hu h') b <> None.
+Proof.
+  intros (Ha & Ha' & _ & Hu & _) L. destruct (Nat.eq_dec b a) as [->|N]; [rewrite Ha'; discriminate|].
+  rewrite (Hu b N). exact L.
+Qed.
+Lemma inplace_sp_of h h' a o o' b sl : inplace h h' a o o' -> (o_sp o <> None -> o_sp o' = o_sp o) ->
+  sp_of h b = Some sl -> sp_of h' b = Some sl.
+Proof.
+  intros (Ha & Ha' & _ & Hu & _) K. unfold sp_of. destruct (Nat.eq_dec b a) as [->|N].
+  - rewrite Ha, Ha'. intros E. rewrite K; [exact E|]. rewrite E. discriminate.
+  - rewrite (Hu b N). intros E; exact E.
+Qed.
+Lemma extends_live h h' r o b : Sep h -> extends h h' r o -> rd (hu h) b <> None -> rd (hu h') b <> None.
+Proof.
+  intros S (Eu & _) L. destruct (rd (hu h) b) as [ob|] eqn:Hb; [|elim L; reflexivity].
+  rewrite (Eu b (live_u h b ob S Hb)). rewrite Hb. discriminate.
+Qed.
+Lemma extends_sp_of h h' r o b sl : Sep h -> extends h h' r o -> sp_of h b = Some sl -> sp_of h' b = Some sl.
+Proof.
+  intros S (Eu & _). unfold sp_of. destruct (rd (hu h) b) as [ob|] eqn:Hb; [|discriminate].
+  rewrite (Eu b (live_u h b ob S Hb)). rewrite Hb. intros E; exact E.
+Qed.
+Lemma extends_fresh h h' r o : Sep h -> extends h h' r o -> abs h r = None.
+Proof.
+  intros S (_ & _ & _ & _ & _ & _ & Lr & _). unfold abs. rewrite (wf_u h S r Lr). reflexivity.
+Qed.
+
+Section Main.
+  Variable idna_raw : str -> str * bool.
+  Variable c : cfg.
+  Notation h_step := (h_step idna_raw c).
+  Notation l1_step := (l1_step idna_raw c).
+  Notation setter := (setter idna_raw c).
+
+  Definition R (h : heap) (st : l1state) : Prop := (forall a, abs h a = fst st a) /\ snd st = next (hu h).
+
+  Lemma R_put_inplace h h' a o o' m n v : Sep h -> R h (m, n) -> inplace h h' a o o' -> abs h' a = v ->
+    R h' (put m a v, n).
+  Proof.
+    intros S [Rm Rn] I A. cbn [fst snd] in *. split; cbn [fst snd].
+    - intros b. unfold put. destruct (Nat.eqb_spec b a) as [->|N]; [exact A|].
+      rewrite (inplace_frame h h' a o o' b S I N). apply Rm.
+    - destruct I as (_ & _ & _ & _ & Nu & _). congruence.
+  Qed.
+  Lemma R_put_extends h h' r o m n v n' : Sep h -> R h (m, n) -> extends h h' r o -> abs h' r = v ->
+    next (hu h') = n' -> R h' (put m r v, n').
+  Proof.
+    intros S [Rm Rn] I A Nn. cbn [fst snd] in *. split; cbn [fst snd].
+    - intros b. unfold put. destruct (Nat.eqb_spec b r) as [->|N]; [exact A|].
+      rewrite (extends_frame h h' r o b S I N). apply Rm.
+    - congruence.
+  Qed.
+
+  (* Theorems 1, 2, 3 and 6 in one statement: an L2 step is simulated by the L1 step on the finite
+     map, the invariant is kept, and the two agree on stopping *)
+  Theorem step_sim h st op : Sep h -> R h st ->
+    match h_step h op with
+    | Some h' => exists st', l1_step st (l1_of h op) = Some st' /\ R h' st' /\ Sep h'
+    | None => l1_step st (l1_of h op) = None
+    end.
+  Proof.
+    intros S HR. destruct st as [m n]. pose proof HR as [Rm Rn]. cbn [fst snd] in Rm, Rn.
+    destruct op as [s|share b ref|a|a w v|a|a mu|sl mu]; cbn [Heap.h_step l1_of Heap.l1_step].
+    - (* parse *)
+      unfold h_parse. destruct (Parse idna_raw c s) as [u| | | |]; try reflexivity; try (eexists; split; [reflexivity|split; assumption]).
+      destruct (new_url_spec h u S) as (o & E & A & Er & En). destruct (new_url h u) as [h' r]. cbn [fst snd] in *.
+      eexists. split; [reflexivity|]. subst r. rewrite Rn. split.
+      + exact (R_put_extends h h' _ o m n _ _ S HR E A En).
+      + exact (extends_Sep h h' _ o S E).
+    - (* resolve *)
+      rewrite <- Rm. destruct (abs h b) as [vb|] eqn:A.
+      + destruct (UrlParse idna_raw c vb ref) as [u| | | |] eqn:P.
+        * destruct (h_resolve_spec idna_raw c share h b ref vb u S A P) as (h' & o & E1 & E2 & E3 & E4). rewrite E1.
+          eexists. split; [reflexivity|]. rewrite Rn. split.
+          -- exact (R_put_extends h h' _ o m n _ _ S HR E2 E3 E4).
+          -- exact (extends_Sep h h' _ o S E2).
+        * destruct (h_clone_spec h b vb S A) as (h1 & o1 & C1 & _). unfold h_resolve. rewrite A, C1, P.
+          eexists; split; [reflexivity|split; assumption].
+        * destruct (h_clone_spec h b vb S A) as (h1 & o1 & C1 & _). unfold h_resolve. rewrite A, C1, P.
+          eexists; split; [reflexivity|split; assumption].
+        * destruct (h_clone_spec h b vb S A) as (h1 & o1 & C1 & _). unfold h_resolve. rewrite A, C1, P. reflexivity.
+        * destruct (h_clone_spec h b vb S A) as (h1 & o1 & C1 & _). unfold h_resolve. rewrite A, C1, P. reflexivity.
+      + unfold h_resolve. rewrite A. reflexivity.
+    - (* clone *)
+      rewrite <- Rm. destruct (abs h a) as [u|] eqn:A.
+      + destruct (h_clone_spec h a u S A) as (h' & o & E1 & E2 & E3 & E4). rewrite E1.
+        eexists. split; [reflexivity|]. rewrite Rn. split.
+        * exact (R_put_extends h h' _ o m n _ _ S HR E2 E3 E4).
+        * exact (extends_Sep h h' _ o S E2).
+      + rewrite (h_clone_none h a S A). reflexivity.
+    - (* setters *)
+      unfold h_set. rewrite <- Rm. destruct (abs h a) as [u|] eqn:A; [|reflexivity].
+      destruct (setter w u v) as [u'|]; [|reflexivity].
+      destruct (abs_some_live h a u A) as (o & Ha). destruct (commit_spec h a o u' S Ha) as (o' & I & A' & _).
+      eexists. split; [reflexivity|]. split.
+      + exact (R_put_inplace h _ a o o' m n _ S HR I A').
+      + exact (inplace_Sep h _ a o o' S I).
+    - (* u.SearchParams() *)
+      rewrite <- Rm. destruct (abs h a) as [u|] eqn:A.
+      + destruct (abs_some_live h a u A) as (o & Ha).
+        destruct (h_searchparams_spec c h a o u S Ha A) as (h' & sl & o' & E & I & A' & _). rewrite E.
+        eexists. split; [reflexivity|]. split.
+        * exact (R_put_inplace h _ a o o' m n _ S HR I A').
+        * exact (inplace_Sep h _ a o o' S I).
+      + unfold h_searchparams. destruct (rd (hu h) a) as [o|] eqn:Ha; [|reflexivity].
+        destruct (abs_live h a o S Ha) as (u & Hu). congruence.
+    - (* u.SearchParams().m() *)
+      unfold h_sp_via. rewrite <- Rm. destruct (abs h a) as [u|] eqn:A.
+      + destruct (abs_some_live h a u A) as (o & Ha).
+        destruct (h_searchparams_spec c h a o u S Ha A) as (h1 & sl & o1 & E & I & A1 & Eo1 & _ & s & Hs & Ow & Ps). rewrite E.
+        pose proof (inplace_Sep h h1 a o o1 S I) as S1.
+        destruct (h_sp_mutate_spec c (spmut_fun mu) h1 sl s a S1 Hs Ow) as (o1' & u1 & h' & o' & Ha1 & Au1 & _ & E2 & I2 & A2 & _).
+        rewrite E2. rewrite A1 in Au1. injection Au1 as <-. rewrite Ps in A2.
+        destruct (ensure_sp c u) as [u1 l]. cbn [fst snd] in *.
+        eexists. split; [reflexivity|].
+        assert (R1 : R h1 (put m a (Some u1), n)) by exact (R_put_inplace h _ a o o1 m n _ S HR I A1).
+        split.
+        * pose proof (R_put_inplace h1 h' a o1' o' _ n _ S1 R1 I2 A2) as [Q1 Q2]. split; [|exact Q2].
+          intros b. rewrite Q1. cbn [fst]. unfold put. destruct (Nat.eqb b a); reflexivity.
+        * exact (inplace_Sep h1 _ a o1' o' S1 I2).
+      + unfold h_searchparams. destruct (rd (hu h) a) as [o|] eqn:Ha; [|reflexivity].
+        destruct (abs_live h a o S Ha) as (u & Hu). congruence.
+    - (* p.m() through a handle *)
+      destruct (rd (hs h) sl) as [s|] eqn:Hs.
+      + destruct (s_owner s) as [a|] eqn:Ow.
+        * destruct (h_sp_mutate_spec c (spmut_fun mu) h sl s a S Hs Ow) as (o & u & h' & o' & Ha & A & Eu & E & I & A' & _).
+          rewrite E. cbn [Heap.l1_step]. rewrite <- Rm, A. unfold ensure_sp. rewrite Eu.
+          eexists. split; [reflexivity|]. split.
+          -- exact (R_put_inplace h _ a o o' m n _ S HR I A').
+          -- exact (inplace_Sep h _ a o o' S I).
+        * destruct (h_sp_mutate_orphan c (spmut_fun mu) h sl s S Hs Ow) as (h' & E & S' & Eh & F). rewrite E.
+          eexists. split; [reflexivity|]. split; [|exact S']. split; cbn [fst snd].
+          -- intros b. rewrite F. apply Rm.
+          -- rewrite Eh. exact Rn.
+      + unfold h_sp_mutate. rewrite Hs. reflexivity.
+  Qed.
+
+  (* ----- Theorem 1: every operation preserves the invariant ----- *)
+  Theorem Sep_preserved h op h' : Sep h -> h_step h op = Some h' -> Sep h'.
+  Proof.
+    intros S E. assert (HR : R h (abs h, next (hu h))) by (split; intros; reflexivity).
+    pose proof (step_sim h _ op S HR) as X. rewrite E in X. destruct X as (st' & _ & _ & S'). exact S'.
+  Qed.
+
+  (* ----- Theorem 3: frame - no handle but the target of the operation changes its value ----- *)
+  Lemma l1_step_frame m n o m' n' : l1_step (m, n) o = Some (m', n') ->
+    forall b,
+      match o with
+      | L1Parse _ | L1Clone _ => b <> n
+      | L1Resolve _ _ => b <> Datatypes.S n
+      | L1Set a _ _ | L1Touch a | L1Sp a _ => b <> a
+      | L1Nop | L1Stop => True
+      end -> m' b = m b.
+  Proof.
+    intros E b Hb. destruct o; cbn [Heap.l1_step] in E.
+    - destruct (Parse idna_raw c s); try discriminate; injection E as <- <-; try reflexivity.
+      unfold put. apply Nat.eqb_neq in Hb. rewrite Hb. reflexivity.
+    - destruct (m b0); [|discriminate].
+      destruct (UrlParse idna_raw c u ref); try discriminate; injection E as <- <-; try reflexivity.
+      unfold put. apply Nat.eqb_neq in Hb. rewrite Hb. reflexivity.
+    - destruct (m a); [|discriminate]. injection E as <- <-. unfold put. apply Nat.eqb_neq in Hb. rewrite Hb. reflexivity.
+    - destruct (m a); [|discriminate]. destruct (setter w u v); [|discriminate]. injection E as <- <-.
+      unfold put. apply Nat.eqb_neq in Hb. rewrite Hb. reflexivity.
+    - destruct (m a); [|discriminate]. injection E as <- <-. unfold put. apply Nat.eqb_neq in Hb. rewrite Hb. reflexivity.
+    - destruct (m a); [|discriminate]. destruct (ensure_sp c u). injection E as <- <-.
+      unfold put. apply Nat.eqb_neq in Hb. rewrite Hb. reflexivity.
+    - injection E as <- <-. reflexivity.
+    - discriminate.
+  Qed.
+
+  Theorem frame h op h' b : Sep h -> h_step h op = Some h' -> target h op <> Some b -> abs h' b = abs h b.
+  Proof.
+    intros S E T. assert (HR : R h (abs h, next (hu h))) by (split; intros; reflexivity).
+    pose proof (step_sim h _ op S HR) as X. rewrite E in X. destruct X as ([m' n'] & L & [Rm _] & _).
+    rewrite Rm. cbn [fst]. apply (l1_step_frame _ _ _ _ _ L).
+    destruct op; cbn [l1_of target] in *; try (intros ->; apply T; reflexivity).
+    destruct (rd (hs h) sl) as [s|]; [|exact I]. destruct (s_owner s) as [a|]; [|exact I].
+    intros ->. apply T; reflexivity.
+  Qed.
+End Main.
+
+Section Named.
+  Variable idna_raw : str -> str * bool.
+  Variable c : cfg.
+  Notation h_step := (h_step idna_raw c).
+  Notation h_run := (h_run idna_raw c).
+  Notation l1_step := (l1_step idna_raw c).
+  Notation l1_run := (l1_run idna_raw c).
+  Notation l1_run0 := (l1_run0 idna_raw c).
+  Notation setter := (setter idna_raw c).
+  Notation h_set := (h_set idna_raw c).
+  Notation h_resolve := (h_resolve idna_raw c).
+  Notation h_parse := (h_parse idna_raw c).
+
+  (* ----- Theorem 2: a setter on handle a computes the L1 setter on the value of a ----- *)
+  Theorem refines_L1 h a w v h' : Sep h -> h_set h a w v = Some h' ->
+    exists u u', abs h a = Some u /\ setter w u v = Some u' /\ abs h' a = Some u' /\
+                 Sep h' /\ forall b, b <> a -> abs h' b = abs h b.
+  Proof.
+    intros S E. unfold Heap.h_set in E. destruct (abs h a) as [u|] eqn:A; [|discriminate].
+    destruct (setter w u v) as [u'|] eqn:W; [|discriminate]. injection E as <-.
+    destruct (abs_some_live h a u A) as (o & Ha). destruct (commit_spec h a o u' S Ha) as (o' & I & A' & _).
+    exists u, u'. split; [reflexivity|]. split; [exact W|]. split; [exact A'|].
+    split; [exact (inplace_Sep h _ a o o' S I)|].
+    intros b N. exact (inplace_frame h _ a o o' b S I N).
+  Qed.
+
+  (* a setter stops exactly when the handle is invalid or the L1 setter panics *)
+  Theorem h_set_stops h a w v : h_set h a w v = None <->
+    abs h a = None \/ exists u, abs h a = Some u /\ setter w u v = None.
+  Proof.
+    unfold Heap.h_set. destruct (abs h a) as [u|]; [|split; [left; reflexivity|reflexivity]].
+    destruct (setter w u v) eqn:W; split.
+    - discriminate.
+    - intros [E|(x & E & W0)]; [discriminate|]. injection E as <-. congruence.
+    - intros _. right. exists u. split; [reflexivity|exact W].
+    - reflexivity.
+  Qed.
+
+  (* ----- Theorem 4: clones and resolution results are fresh, the source is unchanged ----- *)
+  Theorem clone_fresh h a u : Sep h -> abs h a = Some u ->
+    exists h' cl, h_clone h a = Some (h', cl) /\
+      abs h cl = None /\                                (* the handle is new *)
+      abs h' cl = Some (Clone u) /\                      (* it holds the L1 clone *)
+      Sep h' /\                                          (* it shares nothing *)
+      abs h' a = Some u /\                               (* the original is as it was *)
+      forall b, b <> cl -> abs h' b = abs h b.           (* and so is every other Url *)
+  Proof.
+    intros S A. destruct (h_clone_spec h a u S A) as (h' & o & E1 & E2 & E3 & E4).
+    exists h', (next (hu h)). pose proof (extends_fresh h h' _ o S E2) as Fr.
+    split; [exact E1|]. split; [exact Fr|]. split; [exact E3|]. split; [exact (extends_Sep h h' _ o S E2)|]. split.
+    - rewrite <- A. apply (extends_frame h h' _ o a S E2). intros ->. congruence.
+    - intros b N. exact (extends_frame h h' _ o b S E2 N).
+  Qed.
+
+  Theorem resolve_fresh share h b ref vb : Sep h -> abs h b = Some vb ->
+    match UrlParse idna_raw c vb ref with
+    | PUrl u =>
+        exists h' r, h_resolve share h b ref = LOk h' r /\
+          abs h r = None /\ abs h' r = Some u /\ Sep h' /\
+          abs h' b = Some vb /\                            (* the base is never modified *)
+          forall x, x <> r -> abs h' x = abs h x
+    | PErr e => h_resolve share h b ref = LErr h e
+    | PNilNil => h_resolve share h b ref = LNil h
+    | PPanic | PFuel => h_resolve share h b ref = LPanic
+    end.
+  Proof.
+    intros S A. destruct (UrlParse idna_raw c vb ref) as [u| | | |] eqn:P.
+    - destruct (h_resolve_spec idna_raw c share h b ref vb u S A P) as (h' & o & E1 & E2 & E3 & E4).
+      exists h', (Datatypes.S (next (hu h))). pose proof (extends_fresh h h' _ o S E2) as Fr.
+      split; [exact E1|]. split; [exact Fr|]. split; [exact E3|]. split; [exact (extends_Sep h h' _ o S E2)|]. split.
+      + rewrite <- A. apply (extends_frame h h' _ o b S E2). intros ->. congruence.
+      + intros x N. exact (extends_frame h h' _ o x S E2 N).
+    - destruct (h_clone_spec h b vb S A) as (h1 & o1 & C1 & _). unfold Heap.h_resolve. rewrite A, C1, P. reflexivity.
+    - destruct (h_clone_spec h b vb S A) as (h1 & o1 & C1 & _). unfold Heap.h_resolve. rewrite A, C1, P. reflexivity.
+    - destruct (h_clone_spec h b vb S A) as (h1 & o1 & C1 & _). unfold Heap.h_resolve. rewrite A, C1, P. reflexivity.
+    - destruct (h_clone_spec h b vb S A) as (h1 & o1 & C1 & _). unfold Heap.h_resolve. rewrite A, C1, P. reflexivity.
+  Qed.
+
+  Theorem parse_fresh h s u : Sep h -> Parse idna_raw c s = PUrl u ->
+    exists h' r, h_parse h s = LOk h' r /\ abs h r = None /\ abs h' r = Some u /\ Sep h' /\
+                 forall x, x <> r -> abs h' x = abs h x.
+  Proof.
+    intros S P. unfold Heap.h_parse. rewrite P.
+    destruct (new_url_spec h u S) as (o & E & A & Er & En). destruct (new_url h u) as [h' r]. cbn [fst snd] in *.
+    exists h', r. pose proof (extends_fresh h h' _ o S E) as Fr.
+    split; [reflexivity|]. split; [exact Fr|]. split; [exact A|]. split; [exact (extends_Sep h h' _ o S E)|].
+    intros x N. exact (extends_frame h h' _ o x S E N).
+  Qed.
+
+  (* ----- Theorem 6: operation sequences ----- *)
+  Theorem run_sim ops : forall h st, Sep h -> R h st ->
+    match h_run h ops with
+    | Some h' => exists st', l1_run h st ops = Some st' /\ R h' st' /\ Sep h'
+    | None => l1_run h st ops = None
+    end.
+  Proof.
+    induction ops as [|o rest IH]; intros h st S HR; cbn [Heap.h_run Heap.l1_run].
+    - exists st. split; [reflexivity|]. split; assumption.
+    - pose proof (step_sim idna_raw c h st o S HR) as X. destruct (h_step h o) as [h1|].
+      + destruct X as (st1 & L & R1 & S1). specialize (IH h1 st1 S1 R1).
+        destruct (h_run h1 rest); rewrite L; exact IH.
+      + reflexivity.
+  Qed.
+
+  Corollary run_Sep ops h h' : Sep h -> h_run h ops = Some h' -> Sep h'.
+  Proof.
+    intros S E. assert (HR : R h (abs h, next (hu h))) by (split; intros; reflexivity).
+    pose proof (run_sim ops h _ S HR) as X. rewrite E in X. destruct X as (st' & _ & _ & S'). exact S'.
+  Qed.
+
+  (* a handle no operation of the sequence targets keeps its value *)
+  Theorem run_frame b ops : forall h h', Sep h -> h_run h ops = Some h' ->
+    (forall h1 o, In o ops -> target h1 o <> Some b) -> abs h' b = abs h b.
+  Proof.
+    induction ops as [|o rest IH]; intros h h' S E T; cbn [Heap.h_run] in E.
+    - injection E as <-. reflexivity.
+    - destruct (h_step h o) as [h1|] eqn:E1; [|discriminate].
+      rewrite (IH h1 h' (Sep_preserved idna_raw c h o h1 S E1) E (fun h2 o2 I => T h2 o2 (or_intror I))).
+      exact (frame idna_raw c h o h1 b S E1 (T h o (or_introl eq_refl))).
+  Qed.
+
+  (* without operations through old SearchParams handles the L1 run is independent of the heap *)
+  Lemma l1_of_pure h o : no_via o = true -> l1_of h o = l1_of empty_heap o.
+  Proof. destruct o; try reflexivity. discriminate. Qed.
+
+  Theorem run_sim_pure ops : forall h st, Sep h -> R h st -> forallb no_via ops = true ->
+    match h_run h ops with
+    | Some h' => exists st', l1_run0 st ops = Some st' /\ R h' st' /\ Sep h'
+    | None => l1_run0 st ops = None
+    end.
+  Proof.
+    induction ops as [|o rest IH]; intros h st S HR NV; cbn [Heap.h_run Heap.l1_run0].
+    - exists st. split; [reflexivity|]. split; assumption.
+    - cbn [forallb] in NV. apply andb_true_iff in NV as [N1 N2].
+      pose proof (step_sim idna_raw c h st o S HR) as X. rewrite <- (l1_of_pure h o N1).
+      destruct (h_step h o) as [h1|].
+      + destruct X as (st1 & L & R1 & S1). specialize (IH h1 st1 S1 R1 N2).
+        destruct (h_run h1 rest); rewrite L; exact IH.
+      + rewrite X. reflexivity.
+  Qed.
+End Named.
+
+Section Handles.
+  Variable idna_raw : str -> str * bool.
+  Variable c : cfg.
+  Notation h_step := (h_step idna_raw c).
+  Notation h_run := (h_run idna_raw c).
+  Notation setter := (setter idna_raw c).
+
+  (* the L1 fact this needs (proved below, setter_keeps_sp): a setter never discards the parameter list *)
+  Definition keeps_sp : Prop := forall w u v u', setter w u v = Some u' -> u_sp u <> None -> u_sp u' <> None.
+  Hypothesis KS : keeps_sp.
+
+  Lemma h_clone_some h a r : Sep h -> h_clone h a = Some r -> exists u, abs h a = Some u.
+  Proof.
+    intros S E. destruct (abs h a) as [u|] eqn:A; [eauto|]. rewrite (h_clone_none h a S A) in E. discriminate.
+  Qed.
+
+  (* Url handles are never collected and u.searchParams never changes once it is set *)
+  Theorem step_handles h op h' : Sep h -> h_step h op = Some h' ->
+    (forall a, rd (hu h) a <> None -> rd (hu h') a <> None) /\
+    (forall a sl, sp_of h a = Some sl -> sp_of h' a = Some sl).
+  Proof.
+    intros S E. destruct op as [s|share b ref|a|a w v|a|a mu|sl mu]; cbn [Heap.h_step] in E.
+    - unfold h_parse in E. destruct (Parse idna_raw c s) as [u| | | |]; try discriminate; try (injection E as <-; split; auto).
+      destruct (new_url_spec h u S) as (o & X & _). destruct (new_url h u) as [h1 r]. cbn [fst snd] in X. injection E as <-.
+      split; [intros a; exact (extends_live h h1 r o a S X)|intros a sl; exact (extends_sp_of h h1 r o a sl S X)].
+    - destruct (abs h b) as [vb|] eqn:A; [|unfold h_resolve in E; rewrite A in E; discriminate].
+      pose proof (resolve_fresh idna_raw c share h b ref vb S A) as X.
+      destruct (UrlParse idna_raw c vb ref) as [u| | | |] eqn:P.
+      + destruct (h_resolve_spec idna_raw c share h b ref vb u S A P) as (h1 & o & E1 & E2 & _). rewrite E1 in E. injection E as <-.
+        split; [intros a; exact (extends_live h h1 _ o a S E2)|intros a sl; exact (extends_sp_of h h1 _ o a sl S E2)].
+      + rewrite X in E. injection E as <-. split; auto.
+      + rewrite X in E. injection E as <-. split; auto.
+      + rewrite X in E. discriminate.
+      + rewrite X in E. discriminate.
+    - destruct (h_clone h a) as [[h1 cl]|] eqn:C; [|discriminate]. injection E as <-.
+      destruct (h_clone_some h a _ S C) as (u & A). destruct (h_clone_spec h a u S A) as (h2 & o & E1 & E2 & _).
+      rewrite C in E1. injection E1 as <- _.
+      split; [intros x; exact (extends_live h h1 _ o x S E2)|intros x sl; exact (extends_sp_of h h1 _ o x sl S E2)].
+    - unfold h_set in E. destruct (abs h a) as [u|] eqn:A; [|discriminate].
+      destruct (setter w u v) as [u'|] eqn:W; [|discriminate]. injection E as <-.
+      destruct (abs_inv h a u A) as (o & p & Ha & _ & Hsp). destruct (commit_spec h a o u' S Ha) as (o' & I & _ & K).
+      split; [intros x; exact (inplace_live h _ a o o' x I)|].
+      intros x sl. apply (inplace_sp_of h _ a o o' x sl I). intros N. apply K; [|exact N].
+      apply (KS w u v u' W). destruct (o_sp o) as [sl0|]; [|elim N; reflexivity].
+      destruct Hsp as (s & _ & ->). discriminate.
+    - destruct (h_searchparams c h a) as [[h1 sl]|] eqn:C; [|discriminate]. injection E as <-.
+      unfold h_searchparams in C. destruct (rd (hu h) a) as [o|] eqn:Ha; [|discriminate].
+      destruct (abs_live h a o S Ha) as (u & A).
+      destruct (h_searchparams_spec c h a o u S Ha A) as (h2 & sl2 & o' & E1 & I & _ & Eo' & K & _).
+      unfold h_searchparams in E1. rewrite Ha in E1. rewrite C in E1. injection E1 as <- <-.
+      split; [intros x; exact (inplace_live h _ a o o' x I)|].
+      intros x sl0. apply (inplace_sp_of h _ a o o' x sl0 I). intros N.
+      destruct (o_sp o) as [sl1|] eqn:Eo; [|elim N; reflexivity]. destruct (K sl1 eq_refl) as [-> _]. exact Eo'.
+    - unfold h_sp_via in E. destruct (h_searchparams c h a) as [[h1 sl]|] eqn:C; [|discriminate].
+      pose proof C as C0. unfold h_searchparams in C0. destruct (rd (hu h) a) as [o|] eqn:Ha; [|discriminate]. clear C0.
+      destruct (abs_live h a o S Ha) as (u & A).
+      destruct (h_searchparams_spec c h a o u S Ha A) as (h2 & sl2 & o1 & E1 & I & _ & Eo1 & K & s & Hs & Ow & _).
+      rewrite C in E1. injection E1 as <- <-.
+      pose proof (inplace_Sep h h1 a o o1 S I) as S1.
+      destruct (h_sp_mutate_spec c (spmut_fun mu) h1 sl s a S1 Hs Ow) as (o2 & u2 & h3 & o3 & Ha1 & _ & _ & E2 & I2 & _ & Eo3 & Eo2).
+      rewrite E in E2. injection E2 as <-.
+      split.
+      + intros x L. exact (inplace_live h1 h' a o2 o3 x I2 (inplace_live h h1 a o o1 x I L)).
+      + intros x sl0 L. apply (inplace_sp_of h1 h' a o2 o3 x sl0 I2); [intros _; congruence|].
+        apply (inplace_sp_of h h1 a o o1 x sl0 I); [|exact L]. intros N.
+        destruct (o_sp o) as [sl1|] eqn:Eo; [|elim N; reflexivity]. destruct (K sl1 eq_refl) as [-> _]. exact Eo1.
+    - destruct (rd (hs h) sl) as [s|] eqn:Hs; [|unfold h_sp_mutate in E; rewrite Hs in E; discriminate].
+      destruct (s_owner s) as [a|] eqn:Ow.
+      + destruct (h_sp_mutate_spec c (spmut_fun mu) h sl s a S Hs Ow) as (o & u & h1 & o' & Ha & _ & _ & E1 & I & _ & Eo' & Eo).
+        rewrite E in E1. injection E1 as <-.
+        split; [intros x; exact (inplace_live h _ a o o' x I)|].
+        intros x sl0. apply (inplace_sp_of h _ a o o' x sl0 I). intros _. congruence.
+      + destruct (h_sp_mutate_orphan c (spmut_fun mu) h sl s S Hs Ow) as (h1 & E1 & _ & Eh & _).
+        rewrite E in E1. injection E1 as <-. unfold sp_of. rewrite Eh. split; auto.
+  Qed.
+
+  (* ----- Theorem 5: a SearchParams handle obtained from u stays u's handle, whatever happens later ----- *)
+  Theorem handle_stability ops : forall h h' a sl, Sep h -> h_run h ops = Some h' -> sp_of h a = Some sl ->
+    sp_of h' a = Some sl /\ exists s, rd (hs h') sl = Some s /\ s_owner s = Some a.
+  Proof.
+    induction ops as [|o rest IH]; intros h h' a sl S E P; cbn [Heap.h_run] in E.
+    - injection E as <-. split; [exact P|]. unfold sp_of in P. destruct (rd (hu h) a) as [oa|] eqn:Ha; [|discriminate].
+      exact (sep_sp h S a oa sl Ha P).
+    - destruct (h_step h o) as [h1|] eqn:E1; [|discriminate].
+      apply (IH h1 h' a sl (Sep_preserved idna_raw c h o h1 S E1) E).
+      exact (proj2 (step_handles h o h1 S E1) a sl P).
+  Qed.
+
+  (* so a mutation through the OLD handle still is u.SearchParams().f(): it updates u, u only, and
+     agrees with the L1 operation on the value of u *)
+  Theorem old_handle_writes_through ops h h' a sl f : Sep h -> sp_of h a = Some sl -> h_run h ops = Some h' ->
+    exists u l h'', abs h' a = Some u /\ u_sp u = Some l /\
+      h_sp_mutate c f h' sl = Some h'' /\
+      abs h'' a = Some (sp_update c u (f l)) /\ Sep h'' /\ forall b, b <> a -> abs h'' b = abs h' b.
+  Proof.
+    intros S P E. pose proof (run_Sep idna_raw c ops h h' S E) as S'.
+    destruct (handle_stability ops h h' a sl S E P) as (_ & s & Hs & Ow).
+    destruct (h_sp_mutate_spec c f h' sl s a S' Hs Ow) as (o & u & h'' & o' & Ha & A & Eu & E2 & I & A' & _).
+    exists u, (s_params s), h''. split; [exact A|]. split; [exact Eu|]. split; [exact E2|]. split; [exact A'|].
+    split; [exact (inplace_Sep h' h'' a o o' S' I)|]. intros b N. exact (inplace_frame h' h'' a o o' b S' I N).
+  Qed.
+End Handles.
